@@ -26,6 +26,7 @@ def run(ctx):
     ctx.rule('C19.PUBLIC', lambda: rule_public(ctx), 2)
     ctx.rule('C19.CACHED', lambda: rule_cached(ctx), 8)
     ctx.rule('C19.FEATURES', lambda: rule_features(ctx), 3)
+    ctx.rule('C19.BUCKET', lambda: rule_bucket(ctx), 2)
 
 
 def rule_filter(ctx):
@@ -142,7 +143,15 @@ def rule_prov(ctx):
                     mx = bd[0][1].orelse
                     consts = [const_value(a) for a in mx.args if const_value(a) is not None]
                     okk = len(consts) == 1 and isinstance(const_value(bd[0][1].body), int)
-                why = 'onion slice must be bounded by max_onion (a constant for tor clients, max(const, share of the list) otherwise)'
+                    # the variable share is a share of what was already selected (own identities + <= 2 per clearnet bucket),
+                    # never of a list whose size the onion peers themselves determine
+                    for a in mx.args:
+                        if const_value(a) is None:
+                            used = {x.id for x in ast.walk(a) if isinstance(x, ast.Name)} - {'len', 'int', 'min'}
+                            if used != {rs}:
+                                okk = False
+                why = ('onion slice must be bounded by max_onion: a constant for tor clients, max(const, share of the peers already '
+                       f'selected into `{rs}`) otherwise - a share of any other list grows with the number of onion peers announced')
             else:
                 why = f'slice of `{src}` which is not a bucket of the recent good peers nor their onion list'
         ctx.check(okk, 'C19.PROV', ctx.key(f, st, 'source of advertised peers'),
@@ -155,6 +164,44 @@ def rule_prov(ctx):
               'recent peers are split into onion peers and clearnet buckets keyed by bucket_for_external_interface()',
               'recent peers are not split into onion / clearnet buckets by bucket_for_external_interface()', loc=ctx.loc(f, f.node))
     return n + 1
+
+
+BUCKET_PREFIX = {'IPv4Network': (32, 16), 'IPv6Network': (128, 56)}     # (address bits, external bucket prefix) - C19 anchors: (/16, /56)
+
+
+def rule_bucket(ctx):
+    '''The external bucket of a clearnet peer is its /16 (IPv4) or /56 (IPv6) network: supernet(prefixlen_diff=d) of the host
+    network must have prefix length bits - d equal to that.'''
+    f = ctx.func('peer', 'Peer.bucket_for_external_interface')
+    n = 0
+    for c in q.own_calls(f):
+        if not (isinstance(c.func, ast.Attribute) and c.func.attr == 'supernet' and isinstance(c.func.value, ast.Call)):
+            continue
+        cls = norm(c.func.value.func).split('.')[-1]
+        if cls not in BUCKET_PREFIX:
+            continue
+        n += 1
+        bits, want = BUCKET_PREFIX[cls]
+        kw = {k.arg: k.value for k in c.keywords}
+        got = None
+        try:
+            if 'prefixlen_diff' in kw:
+                lin = q.linear(ctx, f, kw['prefixlen_diff'])
+                if set(k for k, v in lin.items() if v) <= {''}:
+                    got = bits - lin.get('', 0)
+            elif 'new_prefix' in kw:
+                lin = q.linear(ctx, f, kw['new_prefix'])
+                if set(k for k, v in lin.items() if v) <= {''}:
+                    got = lin.get('', 0)
+        except q.NotLinear:
+            pass
+        ctx.check(got == want, 'C19.BUCKET', ctx.key(f, q.stmt(c), cls),
+                  f'{cls} hosts are bucketed by their /{want} network',
+                  f'{cls} hosts are bucketed by their /{got} network, not /{want}: ' +
+                  ('many more peers of one operator fit into the reply' if (got or 0) > want else 'unrelated networks share a bucket'),
+                  loc=ctx.loc(f, c))
+    # each address family uses its own network class
+    return n
 
 
 def rule_port(ctx):
